@@ -67,12 +67,17 @@ impl ColumnBatchBuilder {
         let archetype = self.archetype.as_mut().unwrap();
         let state = archetype.get_state::<T>()?;
         let base = archetype.get_base::<T>(state);
+        let fill = self.fill.entry(TypeId::of::<T>()).or_insert(0);
         Some(BatchWriter {
-            fill: self.fill.entry(TypeId::of::<T>()).or_insert(0),
+            // Resume after the components written by previous writers
             storage: unsafe {
-                slice::from_raw_parts_mut(base.as_ptr().cast(), self.target_fill as usize)
-                    .iter_mut()
+                slice::from_raw_parts_mut(
+                    base.as_ptr().cast::<MaybeUninit<T>>().add(*fill as usize),
+                    (self.target_fill - *fill) as usize,
+                )
+                .iter_mut()
             },
+            fill,
         })
     }
 
